@@ -51,6 +51,27 @@ theorem lazy_canonical (t : UInt8) (bs : Bytes) (v : WValue) (s : St)
   obtain ⟨h1, h2⟩ := (lazyToStrictAt _).1 t bs v s h
   exact ⟨h2, (dec_canonical h1).1, (dec_canonical h1).2.1⟩
 
+/-- Exact characterisation of what the reader accepts: decoding as type `t` succeeds with `(v, rest)`
+precisely when `v` is a well-typed value of that type and the input is its encoding followed by
+`rest`. Nothing else is accepted, and nothing of that shape is refused. -/
+theorem decode_accepts_exactly_encodings (t : UInt8) (bs : Bytes) (v : WValue) (rest : Bytes) :
+    decode t bs = .ok (v, rest) ↔ (v.wt = true ∧ v.tcode = t ∧ bs = enc v ++ rest) := by
+  constructor
+  · intro h
+    obtain ⟨h1, h2, h3⟩ := stream_canonical t bs v rest h
+    exact ⟨h3, h2, h1.symm⟩
+  · rintro ⟨h1, h2, h3⟩
+    subst h2 h3
+    exact dec_enc v rest _ h1 (size_le_fuelFor v rest)
+
+/-- A successful decode does not depend on what follows the value: appending bytes to the input
+changes only the remainder. -/
+theorem decode_ignores_what_follows (t : UInt8) (bs more : Bytes) (v : WValue) (rest : Bytes)
+    (h : decode t bs = .ok (v, rest)) : decode t (bs ++ more) = .ok (v, rest ++ more) := by
+  obtain ⟨h1, h2, h3⟩ := (decode_accepts_exactly_encodings t bs v rest).1 h
+  refine (decode_accepts_exactly_encodings t _ v _).2 ⟨h1, h2, ?_⟩
+  rw [h3, List.append_assoc]
+
 /-- The two reader kinds succeed on exactly the same inputs, with the same value and the
 same consumed length. -/
 theorem readers_agree (t : UInt8) (bs : Bytes) (v : WValue) (rest : Bytes) :
